@@ -345,9 +345,11 @@ def gen_ctx(s, allowed):
     if k == "rec":
         return ["rec", s.cid()]
     if k == "ov":
-        return ["ov", s.int(0, 1), ["ov", s.cid()]]
+        c = s.cid()
+        return ["ov", s.int(0, 1), s.pick([["ov", c], ["ov", c], ["ov", c], None, 0])]     # None / falsy values are legal overrides
     if k == "attr":
-        return ["attr", s.int(0, 1), ["ova", s.cid()]]
+        c = s.cid()
+        return ["attr", s.int(0, 1), s.pick([["ova", c], ["ova", c], ["ova", c], None, 0])]
     if k == "na":
         return ["na", s.cid()]
     if k == "fail":
